@@ -120,6 +120,14 @@ def alloc_body(v, project=True, form=None, gen=True, ctype=True, mappings=False)
 NEW_CONS = U(7, ops.K_CONS)
 
 
+def reshaper_body(v, mappings=False, ctype=True):
+    c = alloc_body(max(v, 28), form='dict', mappings=mappings, ctype=ctype)
+    c['consumer_generation'] = None
+    return {'inventories': {RP_B: {'resource_provider_generation': 1, 'inventories': {
+        'VCPU': {'total': 16}, 'MEMORY_MB': {'total': 4096}, 'DISK_GB': {'total': 100}}}},
+        'allocations': {NEW_CONS: c}}
+
+
 def feat_links(rel):
     def f(app, v):
         r = _rq(app, v, 'GET', '/resource_providers/%s' % RP_A)
@@ -209,6 +217,11 @@ FEATURES = [
          'mappings' in x for x in r.json['allocation_requests']))(_cand(a, v, 'resources=VCPU:1'))),
     ('mappings accepted in PUT /allocations', 34,
      lambda a, v: not400(_rq(a, v, 'PUT', '/allocations/%s' % NEW_CONS, alloc_body(v, mappings=True))) and v >= 12),
+    ('mappings accepted in POST /allocations', 34,
+     lambda a, v: not400(_rq(a, v, 'POST', '/allocations', {NEW_CONS: alloc_body(max(v, 12), mappings=True, form='dict')}))
+     and v >= 13),
+    ('mappings accepted in POST /reshaper', 34,
+     lambda a, v: not400(_rq(a, v, 'POST', '/reshaper', reshaper_body(v, mappings=True))) and v >= 30),
     ('root_required on allocation candidates', 35,
      lambda a, v: _cand(a, v, 'resources=VCPU:1&root_required=HW_CPU_X86_AVX').status == 200),
     ('same_subtree on allocation candidates', 36,
@@ -220,6 +233,26 @@ FEATURES = [
     ('consumer_type required in PUT /allocations', 38,
      lambda a, v: _rq(a, v, 'PUT', '/allocations/%s' % NEW_CONS, alloc_body(v, ctype=False)).status == 400
      and v >= 28),
+    ('consumer_type required in POST /allocations', 38,
+     lambda a, v: _rq(a, v, 'POST', '/allocations', {NEW_CONS: alloc_body(max(v, 12), ctype=False, form='dict')}).status == 400
+     and v >= 28),
+    ('consumer_type required in POST /reshaper', 38,
+     lambda a, v: _rq(a, v, 'POST', '/reshaper', reshaper_body(v, ctype=False)).status == 400 and v >= 30),
+    ('consumer_generation required in POST /allocations', 28,
+     lambda a, v: _rq(a, v, 'POST', '/allocations', {NEW_CONS: alloc_body(max(v, 12), gen=False, form='dict')}).status == 400
+     and v >= 13),
+    ('consumer_type accepted in PUT /allocations', 38,
+     lambda a, v: not400(_rq(a, v, 'PUT', '/allocations/%s' % NEW_CONS, dict(alloc_body(v, ctype=False), consumer_type='TYPE1')))
+     and v >= 12),
+    ('consumer_generation accepted in PUT /allocations', 28,
+     lambda a, v: not400(_rq(a, v, 'PUT', '/allocations/%s' % NEW_CONS, dict(alloc_body(v, gen=False), consumer_generation=None)))
+     and v >= 12),
+    ('parent_provider_uuid accepted in PUT /resource_providers/{uuid}', 14,
+     lambda a, v: not400(_rq(a, v, 'PUT', '/resource_providers/%s' % RP_B, {'name': 'rpB', 'parent_provider_uuid': RP_A}))),
+    ('consumer_type filter on GET /usages', 38,
+     lambda a, v: _rq(a, v, 'GET', '/usages?project_id=proj1&consumer_type=TYPE1').status == 200),
+    ('generation required in PUT aggregates', 19,
+     lambda a, v: _rq(a, v, 'PUT', '/resource_providers/%s/aggregates' % RP_SPARE, [AGG]).status == 400 and v >= 1),
     ('in: syntax in required', 39,
      lambda a, v: _rq(a, v, 'GET', '/resource_providers?required=in:HW_CPU_X86_AVX,CUSTOM_T1').status == 200),
     ('repeated required on allocation candidates are all applied', 39,
